@@ -69,6 +69,57 @@ proof! {
 	}
 }
 
+proof! {
+	[alloc] fn pre_genesis_padding() {
+		// Vec growth in place on one concrete block (61 entries of <= 72 bytes)
+		env::alloc_block(8192);
+		// global::difficulty_data_to_vector: a window shorter than DMA_WINDOW + 1 is completed with
+		// simulated pre-genesis headers that carry the MOST RECENT header's difficulty and walk
+		// back in time from the OLDEST header in steps of the most recent interval (one block time
+		// if there is a single header), saturating at 0; the result is oldest-first; a full window is
+		// only reversed. Restated here from the function's documentation.
+		const N: usize = WIN;
+		let mut ts = [0u64; N];
+		let mut df = [0u64; N];
+		let mut v: Vec<HeaderDifficultyInfo> = Vec::with_capacity(N);
+		let mut i = 0;
+		while i < N {
+			ts[i] = nd::any();
+			df[i] = nd::any();
+			nd::assume(df[i] >= 1); // Difficulty::from_num clamps 0 to 1
+			if i > 0 {
+				nd::assume(ts[i] < ts[i - 1]); // newest first, strictly decreasing
+			}
+			v.push(HeaderDifficultyInfo::from_ts_diff(ts[i], grin_core::pow::Difficulty::from_num(df[i])));
+			i += 1;
+		}
+		let out = grin_core::global::difficulty_data_to_vector(v);
+		let need = consensus::DMA_WINDOW as usize + 1;
+		check!(out.len() == need, "always DMA_WINDOW + 1 entries");
+		// the real headers, oldest first, at the end
+		i = 0;
+		while i < N && i < need {
+			let e = &out[need - 1 - i];
+			check!(e.timestamp == ts[i] && e.difficulty.to_num() == df[i], "real headers are kept, oldest first");
+			i += 1;
+		}
+		if N < need {
+			let delta = if N > 1 { ts[0] - ts[1] } else { consensus::BLOCK_TIME_SEC };
+			let mut t = ts[N - 1];
+			let mut k = N;
+			while k < need {
+				t = t.saturating_sub(delta);
+				let e = &out[need - 1 - k];
+				check!(e.difficulty.to_num() == df[0], "simulated pre-genesis headers carry the most recent header's difficulty");
+				check!(e.timestamp == t, "and walk back from the oldest header by the most recent interval");
+				k += 1;
+			}
+		}
+		cover!(N > 1 && df[0] != df[N - 1], "newest and oldest difficulty differ");
+		core::mem::forget(out);
+	}
+}
+
 #[cfg(kani)]
 pub mod tag {
 	use grin_core::consensus::HeaderDifficultyInfo;
@@ -284,6 +335,7 @@ proof! {
 
 pub const HARNESSES: &[(&str, fn())] = &[
 	("c04::dma_total_floor", dma_total_floor),
+	("c04::pre_genesis_padding", pre_genesis_padding),
 	("c04::next_difficulty_dispatch", next_difficulty_dispatch),
 	("c04::wtema_total_floor", wtema_total_floor),
 	("c04::wtema_direction", wtema_direction),
